@@ -3,8 +3,39 @@ C05 — marker text round trip: rendering lemmas.  (The DNF soundness theorems l
 Proofs/DnfCollect.lean / DnfSimplify.lean and are listed in props.py as they are proved.)
 -/
 import Pep508.Model.Dnf
+import Pep508.Proofs.DnfCollect
 namespace Pep508.C05
 open Pep508
+
+/-- **the clauses returned by `to_dnf()` denote the same function as the marker**: for every
+    well-formed, well-typed diagram other than TRUE, every environment, and every spelling of
+    the versions in it (`spell` is what the process happens to print: K1) -/
+theorem to_dnf_sound (spell : Spell) (hs : ∀ v, stripZeros (spell v) = v) (t : MTree)
+    (hwf : t.wf = true) (hty : Typed t) (ρ : Env VarR VarB Val) (hne : t ≠ .leaf true) :
+    dnfSem ρ (toDnf spell t) = t.eval ρ := toDnf_sound' spell hs t hwf hty ρ hne
+
+/-- the quadratic simplifier (batched redundant-term elimination with `is_negation`, then
+    redundant-clause elimination) never changes the meaning of a DNF -/
+theorem simplify_sound (ρ : Env VarR VarB Val) (d : List (List MExpr)) (hok : AllOK d) :
+    dnfSem ρ (simplifyDnf d) = dnfSem ρ d := simplifyDnf_sound ρ d hok
+
+/-- path collection alone (before simplification) is exact -/
+theorem collect_exact (spell : Spell) (hs : ∀ v, stripZeros (spell v) = v) (ρ : Env VarR VarB Val)
+    (t : MTree) (hwf : t.wf = true) (hty : Typed t) (hne : t ≠ .leaf true) :
+    dnfSem ρ (collectDnf spell (t.size + 1) t []) = t.eval ρ := by
+  rw [collectDnf_sem spell hs ρ (t.size + 1) t [] (by omega) hwf hty (Or.inr hne)]
+  simp [clauseSem]
+
+/-- `is_negation` only pairs terms with opposite meaning -/
+theorem is_negation_sound (ρ : Env VarR VarB Val) (a b : MExpr) (hb : TermOK b)
+    (h : isNegation a b = true) : termSem ρ a = !termSem ρ b := isNegation_sound ρ a b hb h
+
+/-- `top_level_extra` (C11): a term occurring in every clause of the DNF holds in every
+    satisfying assignment -/
+theorem common_term_holds (spell : Spell) (hs : ∀ v, stripZeros (spell v) = v) (t : MTree)
+    (hwf : t.wf = true) (hty : Typed t) (ρ : Env VarR VarB Val) (hne : t ≠ .leaf true)
+    (e : MExpr) (hall : ∀ c ∈ toDnf spell t, e ∈ c) (ht : t.eval ρ = true) : termSem ρ e = true :=
+  toDnf_common_term spell hs t hwf hty ρ hne e hall ht
 
 /-- the constant FALSE is rendered as the fixed literal, whatever the spelling table -/
 theorem false_literal (spell : Spell) : showMarker spell (.leaf false) = "python_version < '0'" := by
